@@ -6,7 +6,8 @@ use core::sync::atomic::AtomicUsize;
 use std::fmt::{Debug, Formatter, Pointer};
 
 #[cfg(not(feature = "circ_verif_auto"))]
-use atomic::Atomic;
+use atomic::{Atomic, Ordering};
+#[cfg(feature = "circ_verif_auto")]
 use atomic::Ordering;
 #[cfg(feature = "circ_verif_auto")]
 use crate::verif::HookedAtomic as Atomic;
